@@ -154,7 +154,7 @@ fn after_packet_params(chip: &str, sf: usize, bw: usize) -> Result<Option<(bool,
 pub fn eval(c: &Case) -> Vec<(String, String)> {
     let mut v = vec![];
     let sf = SFS[c.sf].factor();
-    let nominal = rule(sf, BWS[c.bw].hz() as u64, 1);
+    let nominal = rule(sf, crate::checks::c16::NOMINAL_BW_HZ[c.bw] as u64, 1);
     let (tn, td) = true_bw(c.bw);
     let exact = rule(sf, tn, td);
     let tag = format!("{}|SF{}|BW{}", c.chip, sf, BWS[c.bw].hz());
@@ -244,7 +244,7 @@ pub fn run(tier: Tier, replay: Option<&str>) {
         "exploration",
         coverage,
         vec![
-            "rule evaluated with the crate's nominal Bandwidth::hz() and with the true LoRa bandwidths; where the two disagree (SF8 / 15.6 kHz) only agreement with the airtime calculator is required".into(),
+            "rule evaluated with the datasheet's nominal bandwidth values (own table) and with the true LoRa bandwidths; where the two disagree (SF8 / 15.6 kHz) only agreement with the airtime calculator is required".into(),
             "pairs a chip rejects in create_modulation_params are skipped for that chip".into(),
         ],
         Some(&replayer),
